@@ -378,13 +378,28 @@ var roleTable2 = []roleDef2{
 		return isTop(fn) && recvName(fn) == "Client" && callsRaw(fn, false, "time.NewTicker")
 	}},
 	{"heapDown", func(p *Prog, fn *ssa.Function, r map[string]*ssa.Function) bool {
-		return isTop(fn) && recvName(fn) == "" && callsRaw(fn, false, "(list).Swap")
+		// the sift-down step: swaps, and is not itself what the Client's scheduler calls
+		return isTop(fn) && recvName(fn) == "" && callsRaw(fn, false, "(list).Swap") && !calledFromClient(p, fn)
 	}},
+}
+
+// calledFromClient: some method of Client calls fn directly.
+func calledFromClient(p *Prog, fn *ssa.Function) bool {
+	for _, g := range p.AllFns {
+		if recvName(topParent(g)) == "Client" && callsFn(g, false, fn) {
+			return true
+		}
+	}
+	return false
 }
 
 var roleTable3 = []roleDef2{
 	{"minHeap", func(p *Prog, fn *ssa.Function, r map[string]*ssa.Function) bool {
-		return isTop(fn) && recvName(fn) == "" && fn != r["heapDown"] && callsFn(fn, false, r["heapDown"])
+		// heapify: the receiver-less function the Client's scheduler calls that sifts (itself or through heapDown)
+		if !isTop(fn) || recvName(fn) != "" || fn == r["heapDown"] || !calledFromClient(p, fn) {
+			return false
+		}
+		return callsRaw(fn, false, "(list).Swap") || (r["heapDown"] != nil && callsFn(fn, false, r["heapDown"]))
 	}},
 }
 
